@@ -332,13 +332,36 @@ Proof.
   - intro H. destruct (IH H). auto.
 Qed.
 
+(** [format=duration] of the generated schema: a non-empty limitRefreshPeriod parses *)
+Lemma rl_period_parses o g p :
+  format_ok o K_RateLimiter g = true -> In p (aget "policies" g) -> is_null p = false ->
+  exists d, period_ns o p = Some d.
+Proof.
+  intros H Hin Hn. unfold period_ns.
+  destruct (str_empty (sget "limitRefreshPeriod" p)) eqn:Ee; [eauto|].
+  apply aget_In in Hin. destruct Hin as [kv [l [-> [Hl Hin]]]].
+  destruct (sget_nonempty _ _ Ee) as [kv2 [-> Hl2]].
+  set (sv := sget "limitRefreshPeriod" (JObj kv2)) in *.
+  assert (Hr : reach [SField "policies"; SElem; SField "limitRefreshPeriod"] (JObj kv) (JStr sv)).
+  { cbn. exists (JArr l). split; [eauto|]. exists (JObj kv2). split; [left; eauto|].
+    exists (JStr sv). split; [eauto|reflexivity]. }
+  destruct (type_at K_RateLimiter None [SField "policies"; SElem; SField "limitRefreshPeriod"]) as [[m t']|] eqn:Ht;
+    [|vm_compute in Ht; discriminate].
+  pose proof (format_ok_reach o _ _ _ _ _ _ _ _ H Ht Hr eq_refl) as [_ Hc].
+  vm_compute in Ht. inversion Ht; subst m t'. clear Ht.
+  unfold fmt_clause in Hc. cbn [f_format f_jomit] in Hc.
+  assert (Ha : apply_format o "duration" (JStr sv) = true).
+  { apply Hc; [reflexivity|]. cbn. rewrite Ee. reflexivity. }
+  cbn in Ha. destruct (dur_ns o sv); [eauto|discriminate].
+Qed.
+
 (** accepted by the repaired validation: every URL rule has a policy whose period is positive *)
 Lemma rl_urls_ok o g :
-  rl_validate g = true -> rl_periods_positive o g = true ->
+  format_ok o K_RateLimiter g = true -> rl_validate g = true -> rl_periods_positive o g = true ->
   forall u, In u (aget "urls" g) ->
     exists p, rl_bound_policy g u = Some p /\ 0 < rl_period o p.
 Proof.
-  unfold rl_validate, rl_periods_positive. intros Hv Hp u Hin.
+  unfold rl_validate, rl_periods_positive. intros Hf Hv Hp u Hin.
   rewrite forallb_forall in Hv. specialize (Hv _ Hin).
   destruct (is_null u); [discriminate|]. apply andb_true_l in Hv.
   unfold rl_bound_policy.
@@ -346,7 +369,8 @@ Proof.
   exists p. split; [reflexivity|].
   apply rl_find_policy_In in Ef. destruct Ef as [Hin2 Hn].
   rewrite forallb_forall in Hp. specialize (Hp _ Hin2). rewrite Hn in Hp.
-  unfold rl_period. destruct (period_ns o p); [lia|discriminate].
+  destruct (rl_period_parses o g p Hf Hin2 Hn) as [d Hd].
+  unfold rl_period. rewrite Hd in *. lia.
 Qed.
 
 Lemma rl_no_panic o g :
@@ -357,7 +381,7 @@ Lemma rl_no_panic o g :
 Proof.
   intros Hf Hv Hp. split; [now apply rl_regex_ok|].
   split; apply not_bad; intro Hb; apply existsb_exists in Hb; destruct Hb as [u [Hin Hu]];
-    destruct (rl_urls_ok o g Hv Hp u Hin) as [p [Hb Hpos]].
+    destruct (rl_urls_ok o g Hf Hv Hp u Hin) as [p [Hb Hpos]].
   - rewrite Hb in Hu. discriminate.
   - unfold rl_url_bad in Hu. rewrite Hb in Hu. lia.
 Qed.
